@@ -2,20 +2,496 @@
 
 package ttlv
 
+import "time"
+
 // Lemma functions for the gocv verifier: ordinary Go code over the real writer and reader, verified
 // modularly against their contracts (the callees' bodies are not looked at). Compiled only with -tags verif.
+//
+// lemmaRT<T>  (C01, item level): writing a value of TTLV type T followed by arbitrary well-formed bytes and
+//             reading an item of type T back yields the value, and the reader is left exactly at the bytes
+//             that followed.
+// lemmaWRW<T> (C18, item level): for EVERY accepted input item of type T (not only those a writer of this
+//             library emits: arbitrary padding bytes, any trailing items), re-encoding the decoded value
+//             gives an item that decodes again to the same value, and a second re-encoding is byte-identical
+//             to the first.
+
+// Cut lemmas (assert-then-assume): the pre-condition is proved at the call site and handed back as a fact,
+// which splits the variable-length proofs into steps the solvers finish.
+//
+//@ lemma cutItem
+//@   requires len(b) >= 8+padded(n) && tagOf(b) == tag && b[3] == ty && lenOf(b) == n
+//@   ensures len(b) >= 8+padded(n) && tagOf(b) == tag && b[3] == ty && lenOf(b) == n
+//@   pure
+
+func cutItem(b []byte, tag int, ty byte, n int) {}
+
+//@ lemma cutTail
+//@   requires 0 <= o && o <= len(b) && len(b)-o == len(rest) && bytes_eq(b[o:], rest) && hdOK(rest)
+//@   ensures hdOK(b[o:]) && bytes_eq(b[o:], rest)
+//@   pure
+
+func cutTail(b []byte, o int, rest []byte) {}
+
+// Arithmetic fact used by the Interval lemmas (decided by cvc5 through its integer translation; the
+// bit-blasting solvers do not finish on 64-bit division by 10^9).
+//
+//@ lemma lemmaWholeSeconds
+//@   requires 0 <= v && v%1000000000 == 0 && v/1000000000 < 1<<32
+//@   ensures int64(uint32(v/1000000000))*1000000000 == v
+//@   pure
+
+func lemmaWholeSeconds(v int64) {}
 
 //@ lemma lemmaRTInteger
 //@   requires 0 <= tag && tag < 1<<24 && hdOK(rest)
-//@   ensures err == nil && x == v && len(out) == len(rest)
+//@   ensures err == nil && x == v && len(out) == len(rest) && bytes_eq(out, rest)
+
 func lemmaRTInteger(tag int, v int32, rest []byte) (x int32, err error, out []byte) {
 	w := &ttlvWriter{}
 	w.Integer(tag, v)
+	o := len(w.buf)
 	w.buf = append(w.buf, rest...)
+	cutItem(w.buf, tag, 2, 4)
+	cutTail(w.buf, o, rest)
 	dec, err := newTTLVReader(w.buf)
 	if err != nil {
 		return 0, err, nil
 	}
 	x, err = dec.Integer(tag)
+	return x, err, dec.buf
+}
+
+//@ lemma lemmaWRWInteger
+//@   requires 0 <= tag && tag < 1<<24 && hdOK(in)
+//@   ensures err1 == nil ==> err2 == nil && v2 == v1 && bytes_eq(w1, w2)
+
+func lemmaWRWInteger(tag int, in []byte) (v1, v2 int32, err1, err2 error, w1, w2 []byte) {
+	dec, err := newTTLVReader(in)
+	if err != nil {
+		return 0, 0, err, nil, nil, nil
+	}
+	v1, err1 = dec.Integer(tag)
+	if err1 != nil {
+		return 0, 0, err1, nil, nil, nil
+	}
+	a := &ttlvWriter{}
+	a.Integer(tag, v1)
+	dec2, err := newTTLVReader(a.buf)
+	if err != nil {
+		return v1, 0, nil, err, a.buf, nil
+	}
+	v2, err2 = dec2.Integer(tag)
+	if err2 != nil {
+		return v1, 0, nil, err2, a.buf, nil
+	}
+	b := &ttlvWriter{}
+	b.Integer(tag, v2)
+	return v1, v2, nil, nil, a.buf, b.buf
+}
+
+//@ lemma lemmaRTLongInteger
+//@   requires 0 <= tag && tag < 1<<24 && hdOK(rest)
+//@   ensures err == nil && x == v && len(out) == len(rest) && bytes_eq(out, rest)
+
+func lemmaRTLongInteger(tag int, v int64, rest []byte) (x int64, err error, out []byte) {
+	w := &ttlvWriter{}
+	w.LongInteger(tag, v)
+	o := len(w.buf)
+	w.buf = append(w.buf, rest...)
+	cutItem(w.buf, tag, 3, 8)
+	cutTail(w.buf, o, rest)
+	dec, err := newTTLVReader(w.buf)
+	if err != nil {
+		return 0, err, nil
+	}
+	x, err = dec.LongInteger(tag)
+	return x, err, dec.buf
+}
+
+//@ lemma lemmaWRWLongInteger
+//@   requires 0 <= tag && tag < 1<<24 && hdOK(in)
+//@   ensures err1 == nil ==> err2 == nil && v2 == v1 && bytes_eq(w1, w2)
+
+func lemmaWRWLongInteger(tag int, in []byte) (v1, v2 int64, err1, err2 error, w1, w2 []byte) {
+	dec, err := newTTLVReader(in)
+	if err != nil {
+		return 0, 0, err, nil, nil, nil
+	}
+	v1, err1 = dec.LongInteger(tag)
+	if err1 != nil {
+		return 0, 0, err1, nil, nil, nil
+	}
+	a := &ttlvWriter{}
+	a.LongInteger(tag, v1)
+	dec2, err := newTTLVReader(a.buf)
+	if err != nil {
+		return v1, 0, nil, err, a.buf, nil
+	}
+	v2, err2 = dec2.LongInteger(tag)
+	if err2 != nil {
+		return v1, 0, nil, err2, a.buf, nil
+	}
+	b := &ttlvWriter{}
+	b.LongInteger(tag, v2)
+	return v1, v2, nil, nil, a.buf, b.buf
+}
+
+//@ lemma lemmaRTEnum
+//@   requires 0 <= tag && tag < 1<<24 && hdOK(rest)
+//@   ensures err == nil && x == v && len(out) == len(rest) && bytes_eq(out, rest)
+
+func lemmaRTEnum(tag int, v uint32, rest []byte) (x uint32, err error, out []byte) {
+	w := &ttlvWriter{}
+	w.Enum(0, tag, v)
+	o := len(w.buf)
+	w.buf = append(w.buf, rest...)
+	cutItem(w.buf, tag, 5, 4)
+	cutTail(w.buf, o, rest)
+	dec, err := newTTLVReader(w.buf)
+	if err != nil {
+		return 0, err, nil
+	}
+	x, err = dec.Enum(0, tag)
+	return x, err, dec.buf
+}
+
+//@ lemma lemmaWRWEnum
+//@   requires 0 <= tag && tag < 1<<24 && hdOK(in)
+//@   ensures err1 == nil ==> err2 == nil && v2 == v1 && bytes_eq(w1, w2)
+
+func lemmaWRWEnum(tag int, in []byte) (v1, v2 uint32, err1, err2 error, w1, w2 []byte) {
+	dec, err := newTTLVReader(in)
+	if err != nil {
+		return 0, 0, err, nil, nil, nil
+	}
+	v1, err1 = dec.Enum(0, tag)
+	if err1 != nil {
+		return 0, 0, err1, nil, nil, nil
+	}
+	a := &ttlvWriter{}
+	a.Enum(0, tag, v1)
+	dec2, err := newTTLVReader(a.buf)
+	if err != nil {
+		return v1, 0, nil, err, a.buf, nil
+	}
+	v2, err2 = dec2.Enum(0, tag)
+	if err2 != nil {
+		return v1, 0, nil, err2, a.buf, nil
+	}
+	b := &ttlvWriter{}
+	b.Enum(0, tag, v2)
+	return v1, v2, nil, nil, a.buf, b.buf
+}
+
+//@ lemma lemmaRTBool
+//@   requires 0 <= tag && tag < 1<<24 && hdOK(rest)
+//@   ensures err == nil && x == v && len(out) == len(rest) && bytes_eq(out, rest)
+
+func lemmaRTBool(tag int, v bool, rest []byte) (x bool, err error, out []byte) {
+	w := &ttlvWriter{}
+	w.Bool(tag, v)
+	o := len(w.buf)
+	w.buf = append(w.buf, rest...)
+	cutItem(w.buf, tag, 6, 8)
+	cutTail(w.buf, o, rest)
+	dec, err := newTTLVReader(w.buf)
+	if err != nil {
+		return false, err, nil
+	}
+	x, err = dec.Bool(tag)
+	return x, err, dec.buf
+}
+
+//@ lemma lemmaWRWBool
+//@   requires 0 <= tag && tag < 1<<24 && hdOK(in)
+//@   ensures err1 == nil ==> err2 == nil && v2 == v1 && bytes_eq(w1, w2)
+
+func lemmaWRWBool(tag int, in []byte) (v1, v2 bool, err1, err2 error, w1, w2 []byte) {
+	dec, err := newTTLVReader(in)
+	if err != nil {
+		return false, false, err, nil, nil, nil
+	}
+	v1, err1 = dec.Bool(tag)
+	if err1 != nil {
+		return false, false, err1, nil, nil, nil
+	}
+	a := &ttlvWriter{}
+	a.Bool(tag, v1)
+	dec2, err := newTTLVReader(a.buf)
+	if err != nil {
+		return v1, false, nil, err, a.buf, nil
+	}
+	v2, err2 = dec2.Bool(tag)
+	if err2 != nil {
+		return v1, false, nil, err2, a.buf, nil
+	}
+	b := &ttlvWriter{}
+	b.Bool(tag, v2)
+	return v1, v2, nil, nil, a.buf, b.buf
+}
+
+//@ lemma lemmaRTBitmask
+//@   requires 0 <= tag && tag < 1<<24 && hdOK(rest)
+//@   ensures err == nil && x == v && len(out) == len(rest) && bytes_eq(out, rest)
+
+func lemmaRTBitmask(tag int, v int32, rest []byte) (x int32, err error, out []byte) {
+	w := &ttlvWriter{}
+	w.Bitmask(0, tag, v)
+	o := len(w.buf)
+	w.buf = append(w.buf, rest...)
+	cutItem(w.buf, tag, 2, 4)
+	cutTail(w.buf, o, rest)
+	dec, err := newTTLVReader(w.buf)
+	if err != nil {
+		return 0, err, nil
+	}
+	x, err = dec.Bitmask(0, tag)
+	return x, err, dec.buf
+}
+
+//@ lemma lemmaWRWBitmask
+//@   requires 0 <= tag && tag < 1<<24 && hdOK(in)
+//@   ensures err1 == nil ==> err2 == nil && v2 == v1 && bytes_eq(w1, w2)
+
+func lemmaWRWBitmask(tag int, in []byte) (v1, v2 int32, err1, err2 error, w1, w2 []byte) {
+	dec, err := newTTLVReader(in)
+	if err != nil {
+		return 0, 0, err, nil, nil, nil
+	}
+	v1, err1 = dec.Bitmask(0, tag)
+	if err1 != nil {
+		return 0, 0, err1, nil, nil, nil
+	}
+	a := &ttlvWriter{}
+	a.Bitmask(0, tag, v1)
+	dec2, err := newTTLVReader(a.buf)
+	if err != nil {
+		return v1, 0, nil, err, a.buf, nil
+	}
+	v2, err2 = dec2.Bitmask(0, tag)
+	if err2 != nil {
+		return v1, 0, nil, err2, a.buf, nil
+	}
+	b := &ttlvWriter{}
+	b.Bitmask(0, tag, v2)
+	return v1, v2, nil, nil, a.buf, b.buf
+}
+
+//@ lemma lemmaRTDateTime
+//@   requires 0 <= tag && tag < 1<<24 && hdOK(rest)
+//@   ensures err == nil && unix(x) == unix(v) && len(out) == len(rest) && bytes_eq(out, rest)
+
+func lemmaRTDateTime(tag int, v time.Time, rest []byte) (x time.Time, err error, out []byte) {
+	w := &ttlvWriter{}
+	w.DateTime(tag, v)
+	o := len(w.buf)
+	w.buf = append(w.buf, rest...)
+	cutItem(w.buf, tag, 9, 8)
+	cutTail(w.buf, o, rest)
+	dec, err := newTTLVReader(w.buf)
+	if err != nil {
+		return time.Time{}, err, nil
+	}
+	x, err = dec.DateTime(tag)
+	return x, err, dec.buf
+}
+
+//@ lemma lemmaWRWDateTime
+//@   requires 0 <= tag && tag < 1<<24 && hdOK(in)
+//@   ensures err1 == nil ==> err2 == nil && unix(v2) == unix(v1) && bytes_eq(w1, w2)
+
+func lemmaWRWDateTime(tag int, in []byte) (v1, v2 time.Time, err1, err2 error, w1, w2 []byte) {
+	dec, err := newTTLVReader(in)
+	if err != nil {
+		return time.Time{}, time.Time{}, err, nil, nil, nil
+	}
+	v1, err1 = dec.DateTime(tag)
+	if err1 != nil {
+		return time.Time{}, time.Time{}, err1, nil, nil, nil
+	}
+	a := &ttlvWriter{}
+	a.DateTime(tag, v1)
+	dec2, err := newTTLVReader(a.buf)
+	if err != nil {
+		return v1, time.Time{}, nil, err, a.buf, nil
+	}
+	v2, err2 = dec2.DateTime(tag)
+	if err2 != nil {
+		return v1, time.Time{}, nil, err2, a.buf, nil
+	}
+	b := &ttlvWriter{}
+	b.DateTime(tag, v2)
+	return v1, v2, nil, nil, a.buf, b.buf
+}
+
+//@ lemma lemmaRTInterval
+//@   requires 0 <= tag && tag < 1<<24 && hdOK(rest) && 0 <= v && int64(v)%1000000000 == 0 && int64(v)/1000000000 < 1<<32
+//@   ensures err == nil && x == v && len(out) == len(rest) && bytes_eq(out, rest)
+
+func lemmaRTInterval(tag int, v time.Duration, rest []byte) (x time.Duration, err error, out []byte) {
+	lemmaWholeSeconds(int64(v))
+	w := &ttlvWriter{}
+	w.Interval(tag, v)
+	o := len(w.buf)
+	w.buf = append(w.buf, rest...)
+	cutItem(w.buf, tag, 10, 4)
+	cutTail(w.buf, o, rest)
+	dec, err := newTTLVReader(w.buf)
+	if err != nil {
+		return 0, err, nil
+	}
+	x, err = dec.Interval(tag)
+	return x, err, dec.buf
+}
+
+//@ lemma lemmaWRWInterval
+//@   requires 0 <= tag && tag < 1<<24 && hdOK(in)
+//@   ensures err1 == nil ==> err2 == nil && v2 == v1 && bytes_eq(w1, w2)
+
+func lemmaWRWInterval(tag int, in []byte) (v1, v2 time.Duration, err1, err2 error, w1, w2 []byte) {
+	dec, err := newTTLVReader(in)
+	if err != nil {
+		return 0, 0, err, nil, nil, nil
+	}
+	v1, err1 = dec.Interval(tag)
+	if err1 != nil {
+		return 0, 0, err1, nil, nil, nil
+	}
+	a := &ttlvWriter{}
+	a.Interval(tag, v1)
+	dec2, err := newTTLVReader(a.buf)
+	if err != nil {
+		return v1, 0, nil, err, a.buf, nil
+	}
+	v2, err2 = dec2.Interval(tag)
+	if err2 != nil {
+		return v1, 0, nil, err2, a.buf, nil
+	}
+	b := &ttlvWriter{}
+	b.Interval(tag, v2)
+	return v1, v2, nil, nil, a.buf, b.buf
+}
+
+//@ lemma lemmaRTTextString
+//@   requires 0 <= tag && tag < 1<<24 && hdOK(rest) && len(v) < 1<<31
+//@   ensures err == nil && bytes_eq(x, v) && len(out) == len(rest) && bytes_eq(out, rest)
+
+func lemmaRTTextString(tag int, v string, rest []byte) (x string, err error, out []byte) {
+	w := &ttlvWriter{}
+	w.TextString(tag, v)
+	o := len(w.buf)
+	w.buf = append(w.buf, rest...)
+	cutItem(w.buf, tag, 7, len(v))
+	cutTail(w.buf, o, rest)
+	dec, err := newTTLVReader(w.buf)
+	if err != nil {
+		return "", err, nil
+	}
+	x, err = dec.TextString(tag)
+	return x, err, dec.buf
+}
+
+//@ lemma lemmaWRWTextString
+//@   requires 0 <= tag && tag < 1<<24 && hdOK(in)
+//@   ensures err1 == nil ==> err2 == nil && bytes_eq(v2, v1) && bytes_eq(w1, w2)
+
+func lemmaWRWTextString(tag int, in []byte) (v1, v2 string, err1, err2 error, w1, w2 []byte) {
+	dec, err := newTTLVReader(in)
+	if err != nil {
+		return "", "", err, nil, nil, nil
+	}
+	v1, err1 = dec.TextString(tag)
+	if err1 != nil {
+		return "", "", err1, nil, nil, nil
+	}
+	a := &ttlvWriter{}
+	a.TextString(tag, v1)
+	dec2, err := newTTLVReader(a.buf)
+	if err != nil {
+		return v1, "", nil, err, a.buf, nil
+	}
+	v2, err2 = dec2.TextString(tag)
+	if err2 != nil {
+		return v1, "", nil, err2, a.buf, nil
+	}
+	b := &ttlvWriter{}
+	b.TextString(tag, v2)
+	return v1, v2, nil, nil, a.buf, b.buf
+}
+
+//@ lemma lemmaRTByteString
+//@   requires 0 <= tag && tag < 1<<24 && hdOK(rest) && len(v) < 1<<31
+//@   ensures err == nil && bytes_eq(x, v) && len(out) == len(rest) && bytes_eq(out, rest)
+
+func lemmaRTByteString(tag int, v []byte, rest []byte) (x []byte, err error, out []byte) {
+	w := &ttlvWriter{}
+	w.ByteString(tag, v)
+	o := len(w.buf)
+	w.buf = append(w.buf, rest...)
+	cutItem(w.buf, tag, 8, len(v))
+	cutTail(w.buf, o, rest)
+	dec, err := newTTLVReader(w.buf)
+	if err != nil {
+		return nil, err, nil
+	}
+	x, err = dec.ByteString(tag)
+	return x, err, dec.buf
+}
+
+//@ lemma lemmaWRWByteString
+//@   requires 0 <= tag && tag < 1<<24 && hdOK(in)
+//@   ensures err1 == nil ==> err2 == nil && bytes_eq(v2, v1) && bytes_eq(w1, w2)
+
+func lemmaWRWByteString(tag int, in []byte) (v1, v2 []byte, err1, err2 error, w1, w2 []byte) {
+	dec, err := newTTLVReader(in)
+	if err != nil {
+		return nil, nil, err, nil, nil, nil
+	}
+	v1, err1 = dec.ByteString(tag)
+	if err1 != nil {
+		return nil, nil, err1, nil, nil, nil
+	}
+	a := &ttlvWriter{}
+	a.ByteString(tag, v1)
+	dec2, err := newTTLVReader(a.buf)
+	if err != nil {
+		return v1, nil, nil, err, a.buf, nil
+	}
+	v2, err2 = dec2.ByteString(tag)
+	if err2 != nil {
+		return v1, nil, nil, err2, a.buf, nil
+	}
+	b := &ttlvWriter{}
+	b.ByteString(tag, v2)
+	return v1, v2, nil, nil, a.buf, b.buf
+}
+
+// Nesting (C01, item level): a structure holding one item round-trips through the real Struct writer
+// (length patched in place after the children are written) and the real Struct reader (nested reader over
+// exactly the declared extent). The bodies of the two Struct methods are used here instead of their
+// contracts, because the callbacks are known.
+//
+//@ lemma lemmaRTStructInteger
+//@   requires 0 <= tag && tag < 1<<24 && 0 <= tag2 && tag2 < 1<<24 && hdOK(rest)
+//@   usebody (*ttlvWriter).Struct
+//@   usebody (*ttlvReader).Struct
+//@   ensures err == nil && x == v && len(out) == len(rest) && bytes_eq(out, rest)
+
+func lemmaRTStructInteger(tag, tag2 int, v int32, rest []byte) (x int32, err error, out []byte) {
+	w := &ttlvWriter{}
+	w.Struct(tag, func(w writer) { w.Integer(tag2, v) })
+	o := len(w.buf)
+	w.buf = append(w.buf, rest...)
+	cutItem(w.buf, tag, 1, 16)
+	cutTail(w.buf, o, rest)
+	dec, err := newTTLVReader(w.buf)
+	if err != nil {
+		return 0, err, nil
+	}
+	err = dec.Struct(tag, func(r reader) error {
+		var e error
+		x, e = r.Integer(tag2)
+		return e
+	})
 	return x, err, dec.buf
 }
